@@ -1861,6 +1861,11 @@ class RulesMixin:
             model_q = self.model_for(it.cls)
             if model_q is not None and hasattr(model_q, "quantify"):
                 return model_q.quantify(self, it, e, g, fr, is_any)
+            if model_q is not None and hasattr(model_q, "iter_source"):
+                # any()/all() over a modelled collection of unknown length and content (events of
+                # a library ...): nothing is known about the answer
+                ctx.assumptions_used.add("any()/all() over a modelled event collection: result unconstrained")
+                return SymBool(z3.Bool(ctx.fresh_name("any" if is_any else "all")))
         if isinstance(it, MapValues):
             n = it.m.size if it.m.size is not None else ctx.fresh("n", z3.IntSort())
             elem = None
